@@ -224,6 +224,36 @@ def is_wf(nodes):
     return True
 
 
+def raw_count(nodes):
+    """independent exact model count over a raw array (Python ints are unbounded): memoised recursion from the root with
+    level-gap weights, one value per node (linear in the node count however much sharing there is); None for an invalid
+    array; cross-checked against the truth table when the variable count is small"""
+    if not is_wf(nodes):
+        return None
+    nv = nodes[0][0]
+    memo = {}
+
+    def cnt(p):      # number of assignments of variables var(p)..nv-1 satisfying the sub-diagram
+        if p == 0:
+            return 0
+        if p == 1:
+            return 1
+        if p in memo:
+            return memo[p]
+        v, l, h = nodes[p]
+        vl = nodes[l][0]
+        vh = nodes[h][0]
+        r = cnt(l) * (1 << (vl - v - 1)) + cnt(h) * (1 << (vh - v - 1))
+        memo[p] = r
+        return r
+    root = len(nodes) - 1
+    sys.setrecursionlimit(max(10000, 4 * len(nodes), sys.getrecursionlimit()))
+    total = cnt(root) * (1 << nodes[root][0]) if root >= 2 else (cnt(root) << nv)
+    if nv <= 12:
+        assert total == sum(1 for t in raw_tt(nodes) if t)
+    return total
+
+
 def noncanonical_variant(rng, nodes):
     """a valid (ordered, in-range) but non-canonical array denoting the same function"""
     if len(nodes) < 3:
